@@ -17,6 +17,8 @@ EXPLANATION = (
     "that it runs at most once. V6: the validation sites named by the property still reject. Whether "
     "every corrupted input is outside the language is a language question and is not decided; "
     "`python -O` disabling assert-based validations is noted, not claimed.")
+EXPLANATION += (
+    " V6 also covers Namespace.find_class_or_function: candidates are selected by the typename's qualifiers and name, both rejections exist, and every return has passed them (or answers from a table stored after them under a key that covers the qualifiers). V7: every free-text token class of the grammar (CharsNotIn, QuotedString, Word) is bounded by its line or cannot match structural characters, nested expressions are bounded by bracket balance, and no SkipTo/Regex/restOfLine scans declaration text - otherwise deleting a closing delimiter yields an accepted file with swallowed declarations.")
 ASSUMPTIONS = [
     "rejections are raised as pyparsing ParseBaseException, ValueError or AssertionError (the repo's idioms)",
     "callee resolution: self./Class./module-qualified calls exactly; unknown receivers by method name (over-approximation)",
